@@ -103,7 +103,7 @@ func (v val) src() string {
 
 // ---- expressions (right-hand sides)
 type expr struct {
-	kind byte // 0 literal, N S W X R P C
+	kind byte // 0 literal, N S W X R P C Q T M G
 	v    val
 	y    string
 	l, r int64
@@ -120,8 +120,12 @@ func (x expr) enc() string {
 		return fmt.Sprintf("S:%s:%d:%d", x.y, x.l, x.r)
 	case 'X':
 		return "X:" + x.y + ":" + x.k.enc()
-	case 'P':
-		return "P:" + x.y + ":" + x.v.enc()
+	case 'P', 'Q', 'M':
+		return string(x.kind) + ":" + x.y + ":" + x.v.enc()
+	case 'T':
+		return fmt.Sprintf("T:%s:%d:%d:%s", x.y, x.l, x.r, x.v.enc())
+	case 'G':
+		return "G:" + x.y
 	default:
 		return "C:" + x.y + ":" + x.k.enc() + ":" + x.v.enc()
 	}
@@ -143,6 +147,15 @@ func (x expr) src(uniq *int) string {
 		return fmt.Sprintf("func(){%d;%s}()", *uniq, x.y)
 	case 'P':
 		return x.y + "+[" + x.v.src() + "]"
+	case 'Q':
+		return x.y + "+" + x.v.src()
+	case 'T':
+		return fmt.Sprintf("%s[%d:%d]+%s", x.y, x.l, x.r, x.v.src())
+	case 'M':
+		*uniq += 2
+		return fmt.Sprintf("func(){%d;%s=%s;func(){%d;%s}}()", *uniq-1, x.y, x.v.src(), *uniq, x.y)
+	case 'G':
+		return x.y + "()"
 	default:
 		*uniq++
 		return fmt.Sprintf("func(pp){%d;pp[%s]=%s;pp}(%s)", *uniq, x.k.src(), x.v.src(), x.y)
@@ -260,6 +273,12 @@ func (a attempt) kindName() string {
 			return k + "-returned"
 		case 'P':
 			return k + "-append"
+		case 'Q', 'T':
+			return k + "-computed"
+		case 'M':
+			return k + "-closure"
+		case 'G':
+			return k + "-closurecall"
 		default:
 			return k + "-calleewrite"
 		}
@@ -370,8 +389,10 @@ func decExpr(s string) expr {
 			x.l, x.r = i64(f[2]), i64(f[3])
 		case 'X':
 			x.k = decLeaf(f[2])
-		case 'P':
+		case 'P', 'Q', 'M':
 			x.v = decValS(f[2])
+		case 'T':
+			x.l, x.r, x.v = i64(f[2]), i64(f[3]), decValS(f[4])
 		case 'C':
 			x.k, x.v = decLeaf(f[2]), decValS(f[3])
 		}
@@ -514,6 +535,19 @@ func c19Run(c *Ctx, noReg bool, names []string, evs []event, line string) runRes
 	firstIns := map[string]string{} // its Inspect text
 	firstTy := map[string]string{}  // its value type, for the signature
 	var res runResult
+	cloFirst := map[string]string{} // closure name -> first result of calling it
+	closOf := map[string]string{}   // closure name -> the constant-named function-scope binding it closes over
+	{
+		bound := map[string]bool{}
+		for _, ev := range evs { // the name must have been unbound at top level when the closure was made
+			if ev.a.kind == "AS" && ev.scope == 'T' && ev.a.ex.kind != 'M' {
+				bound[ev.a.name] = true
+			}
+			if ev.a.kind == "AS" && ev.a.ex.kind == 'M' && !bound[ev.a.ex.y] && object.Constant(ev.a.ex.y) {
+				closOf[ev.a.name] = ev.a.ex.y
+			}
+		}
+	}
 	for _, n := range names {
 		if v, _ := se.value(n); v != "-" {
 			c.Fail("harness-name-prebound", line, n+" is already bound to "+v)
@@ -526,6 +560,22 @@ func c19Run(c *Ctx, noReg bool, names []string, evs []event, line string) runRes
 			_, passed = se.value(ev.a.y)
 		}
 		out, panicked, errs := se.exec(src)
+		if ev.a.kind == "AS" && ev.a.ex.kind == 'M' && strings.HasPrefix(out, "ok=") {
+			out = "ok=<fn>" // the text of the function value carries the unique statements
+		}
+		if ev.a.kind == "AS" || ev.a.kind == "DL" {
+			delete(cloFirst, ev.a.name)
+		}
+		// a closure over a function-scope binding keeps returning what that binding holds, whatever happens to the
+		// same name elsewhere
+		if ev.a.kind == "AS" && ev.a.ex.kind == 'G' && strings.HasPrefix(out, "ok=") && closOf[ev.a.ex.y] != "" {
+			g := ev.a.ex.y
+			if f, ok := cloFirst[g]; ok && f != out {
+				c.Fail("const-closure-read-changed-"+scopeName(ev.scope), line,
+					fmt.Sprintf("%s step %d %q: %s() returned %s before, now %s", mode, idx, src, g, f[3:], out[3:]))
+			}
+			cloFirst[g] = out
+		}
 		// (inside a loop the statement runs twice and the second call is passed what the first one wrote)
 		if ev.a.kind == "CA" && ev.scope != 'L' && object.Constant(ev.a.name) && strings.HasPrefix(out, "ok=") && out[3:] != passed {
 			c.Fail("const-param-changed-"+scopeName(ev.scope), line,
@@ -828,6 +878,34 @@ func corpus() ([][]string, [][]event) {
 				event{sc, attempt{kind: "CA", name: "MP", y: "b", k: vi(2), v: vi(98)}}, T(rd("M")))
 		}
 	}
+	// a constant bound in FUNCTION scope and captured by a returned closure; later the same name is bound at top
+	// level, in another function, deleted, rebound: the closure keeps reading its own binding
+	for _, v := range []val{parr(3, 1), vi(10), parr(10, 1), vs("k"), pmap(5, 1)} {
+		for _, sc := range []byte{'T', 'F', 'L'} {
+			call := func(x string) event { return event{sc, asx(x, expr{kind: 'G', y: "g1"})} }
+			add([]string{"K", "x", "y"}, T(asx("g1", expr{kind: 'M', y: "K", v: v})), call("x"), T(as("K", vi(2))), call("y"), T(rd("K")),
+				event{'F', as("K", vi(3))}, call("y"), T(attempt{kind: "DL", name: "K"}), call("y"), T(as("K", v)), call("y"),
+				T(asx("g2", expr{kind: 'M', y: "K", v: vi(5)})), T(asx("y", expr{kind: 'G', y: "g2"})), call("y"))
+			// a non constant name: the closure shares the top-level variable
+			add([]string{"K", "x", "v"}, T(as("v", vi(1))), T(asx("g1", expr{kind: 'M', y: "v", v: v})), call("x"), T(as("v", vi(7))), call("x"), T(rd("v")))
+		}
+	}
+	// the new value is COMPUTED FROM the constant or from a value sharing its storage: K=K[0:n]+e, K=K+e, B=A+e twice
+	for _, size := range []int{3, 8, 9, 10, 12} {
+		for _, sc := range []byte{'T', 'F', 'L'} {
+			for _, def := range []bool{false, true} {
+				K := parr(size, 0)
+				cmp := func(n string, x expr) event { return event{sc, attempt{kind: "AS", name: n, ex: x, flag: def}} }
+				add([]string{"K", "b"}, T(as("K", K)), cmp("K", expr{kind: 'T', y: "K", l: 0, r: int64(size - 1), v: vi(99)}), T(rd("K")),
+					cmp("K", expr{kind: 'Q', y: "K", v: vi(5)}), cmp("K", expr{kind: 'T', y: "K", l: 0, r: int64(size - 1), v: vi(int64(size - 1))}),
+					T(asx("b", expr{kind: 'S', y: "K", l: 0, r: int64(size - 2)})), cmp("b", expr{kind: 'Q', y: "b", v: vi(77)}),
+					cmp("K", expr{kind: 'P', y: "b", v: vi(int64(size - 1))}), T(rd("K")))
+				add([]string{"A", "B", "x"}, T(as("x", parr(size-1, 1))), T(asx("A", expr{kind: 'P', y: "x", v: vi(int64(size))})),
+					T(asx("B", expr{kind: 'Q', y: "A", v: vi(10)})), cmp("B", expr{kind: 'Q', y: "A", v: vi(11)}), T(rd("B")),
+					cmp("B", expr{kind: 'Q', y: "A", v: vi(10)}), cmp("x", expr{kind: 'Q', y: "A", v: vi(12)}), T(rd("A")), T(rd("B")))
+			}
+		}
+	}
 	// every kind of attempt from nested scopes on an integer constant
 	for _, sc := range []byte{'T', 'F', 'G', 'L'} {
 		add([]string{"K", "x"}, T(as("K", vi(7))),
@@ -1036,7 +1114,32 @@ func c19Random(c *Ctx, nEvents int) {
 			yv := cur[y]
 			ln := int64(len(yv.els))
 			var x expr
-			switch c.R.Intn(7) {
+			switch c.R.Intn(11) {
+			case 7, 8: // computed from y (often the assigned name itself): y+e, y[l:r]+e
+				if c.R.Pct(60) {
+					y, yv, ln = n, v, int64(len(v.els))
+				}
+				if c.R.Bool() {
+					x = expr{kind: 'Q', y: y, v: randLeaf(c)}
+				} else {
+					r := ln - int64(c.R.Intn(2))
+					if r < 0 {
+						r = 0
+					}
+					x = expr{kind: 'T', y: y, l: 0, r: r, v: randLeaf(c)}
+					if c.R.Pct(40) && r < ln && r >= 0 && yv.kind == 'a' && yv.els[r].kind != 'a' && yv.els[r].kind != 'm' {
+						x.v = yv.els[r] // puts back what the slice dropped: the identical value
+					}
+				}
+				if yv.kind != 'a' {
+					x = expr{kind: 'N', y: y} // + on other types is outside the model
+				}
+			case 9: // a closure over a function-scope binding (made at top level)
+				sc = 'T'
+				n = []string{"g1", "g2"}[c.R.Intn(2)]
+				x = expr{kind: 'M', y: names[c.R.Intn(len(names))], v: randVal(c, 1)}
+			case 10:
+				x = expr{kind: 'G', y: []string{"g1", "g2"}[c.R.Intn(2)]}
 			case 0:
 				x = expr{kind: 'N', y: y}
 			case 1:
